@@ -225,3 +225,11 @@ package kgo
 //@   ensures kept ==> len(fp.Records) == old(len(fp.Records)) + 1 && fp.Records[old(len(fp.Records))] == record
 //@   ensures kept ==> forall i in 0..old(len(fp.Records)) :: fp.Records[i] == old(fp.Records[i])
 //@   ensures !kept ==> fp.Records == old(fp.Records)
+
+// UniformBytesPartitioner (constructor): each option lands in its own field - `keys` decides whether keyed records
+// are hashed (equal keys, same partition), `adaptive` only the backup-aware choice for unkeyed ones.
+//@ func UniformBytesPartitioner(bytes int, adaptive bool, keys bool, hasher PartitionerHasher) (p Partitioner)
+//@   prop C28
+//@   site store bytes#0 assert [bytes-option] val == bytes
+//@   site store adaptive#0 assert [adaptive-option] val == adaptive
+//@   site store keys#0 assert [keys-option] val == keys
